@@ -1,6 +1,175 @@
-import UralModel.Model.Facebook
-/-! C19, part `facebook` — theorems (under construction) -/
+import UralModel.Lemmas.FacebookTotal
+/-!
+# C19, part `facebook` — `ural/facebook.py` is total and agrees with the urls it builds
+
+Model: `Model/Facebook.lean` (every function of the module, as a function of the url *string*:
+`urlsplit` / `urljoin` / `parse_qs` / `unquote` are the hand models of `Py/`).
+-/
 namespace Ural.Props.C19.Facebook
 open Ural.Py Ural Ural.Facebook
+open Ural.Gen.C19Facebook
+
+/-! ## table obligations (regenerated data of the module) -/
+
+/-- the patterns the hand-written parts of the model were written for (`fixMistakes` for
+`MISTAKES_RE`, the group arithmetic of `extract_url_from_facebook_link` for `URL_EXTRACT_RE`)
+and the flags of all six regexes are those of the imported modules -/
+theorem patterns_unchanged :
+    MISTAKES_RE_pattern = "&amp(?:%3B|;)" ∧ MISTAKES_RE_flags = 34 ∧
+    URL_EXTRACT_RE_pattern = "(?:^|[?&])(u)=([^&]+)" ∧ URL_EXTRACT_RE_flags = 32 ∧
+    FACEBOOK_ID_RE_pattern = "^\\d+$" ∧ FACEBOOK_ID_RE_flags = 32 ∧
+    FACEBOOK_FULL_ID_RE_pattern = "^\\d+_\\d+$" ∧ FACEBOOK_FULL_ID_RE_flags = 32 ∧
+    FACEBOOK_DOMAIN_RE_pattern = "(?:^|\\.)(?:facebook\\.[^.]+|fb\\.me)$" ∧ FACEBOOK_DOMAIN_RE_flags = 34 ∧
+    MOBILE_REPLACE_RE_pattern = "^([^.]+\\.)?facebook\\." ∧ MOBILE_REPLACE_RE_flags = 34 := by
+  decide
+
+/-- `BASE_FACEBOOK_URL` is the base the round-trip theorems are proved for -/
+theorem base_url_unchanged : BASE_FACEBOOK_URL = "https://www.facebook.com" := by decide
+
+/-- the sentinel records of `harness/gen_tables/c19_facebook.py` -/
+def sentinel (x : String) : Str := ("{" ++ x ++ "}").toList
+
+def urlO (r : Parsed) : Option (Option Str) :=
+  match r.url with
+  | .ok x => some x
+  | .error _ => none
+
+/-- what the model's builders return on the sentinel records, in the order of the table
+(`some`: no exception) -/
+def modelTemplates : List (String × Option (Option Str)) :=
+  let i := sentinel "id"; let h := some (sentinel "handle"); let pid := some (sentinel "pid")
+  let ph := some (sentinel "ph"); let gid := some (sentinel "gid"); let gh := some (sentinel "gh")
+  let aid := some (sentinel "aid")
+  [ ("user_id", urlO (Parsed.user i none)), ("user_handle", urlO (Parsed.user i h)),
+    ("handle", urlO (Parsed.handle (sentinel "handle"))),
+    ("group_id", urlO (Parsed.group (some i) none)), ("group_handle", urlO (Parsed.group none h)),
+    ("group_both", urlO (Parsed.group (some i) h)),
+    ("post_parent_handle", urlO (Parsed.post i pid ph gid gh)), ("post_parent_id", urlO (Parsed.post i pid none gid gh)),
+    ("post_group_id", urlO (Parsed.post i none none gid gh)), ("post_group_handle", urlO (Parsed.post i none none none gh)),
+    ("post_none", urlO (Parsed.post i none none none none)),
+    ("post_full_parent", some (Parsed.post i pid none gid none).full_id),
+    ("post_full_group", some (Parsed.post i none none gid none).full_id),
+    ("post_full_none", some (Parsed.post i none ph none gh).full_id),
+    ("video_plain", urlO (Parsed.video i none)), ("video_parent", urlO (Parsed.video i pid)),
+    ("photo_plain", urlO (Parsed.photo i none none none none)),
+    ("photo_parent_id", urlO (Parsed.photo i none pid ph aid)),
+    ("photo_parent_handle", urlO (Parsed.photo i none none ph aid)),
+    ("photo_group", urlO (Parsed.photo i gid pid none aid)),
+    ("photo_album", urlO (Parsed.photo i none none none aid)),
+    ("photo_empty_group", urlO (Parsed.photo i (some []) none none (some []))) ]
+
+/-- every branch of every record builder (`.url`, `.full_id`) of the model returns, on the
+sentinel records, exactly what the real builders returned on this run -/
+theorem url_templates_unchanged :
+    modelTemplates = observedTemplates.map fun kv => (kv.1, some (kv.2.map String.toList)) := by
+  decide
+
+/-- `FACEBOOK_TYPES_HAVING_COMMENTS` is the tuple `hasComments` models -/
+theorem types_having_comments_unchanged :
+    typesHavingComments = ["FacebookPhoto", "FacebookPost", "FacebookVideo"] ∧
+    [Parsed.user [] none, .handle [], .group none none, .post [] none none none none, .video [] none,
+      .photo [] none none none none].map (fun r => (r.className, hasComments (some r))) =
+    [("FacebookUser", false), ("FacebookHandle", false), ("FacebookGroup", false), ("FacebookPost", true),
+     ("FacebookVideo", true), ("FacebookPhoto", true)] := by
+  decide
+
+/-- the canonical host is accepted by the regenerated `FACEBOOK_DOMAIN_RE` (used by every
+round-trip theorem: the urls the builders make are facebook urls) -/
+theorem canonical_host_accepted :
+    reSearch FACEBOOK_DOMAIN_RE "www.facebook.com".toList = true := by decide
+
+/-! ## totality -/
+
+/-- **`get_hostname` never raises**: the `ValueError` of `urlsplit` is caught -/
+theorem get_hostname_total (url : Str) (e : Err) : get_hostname url ≠ .error e := by
+  rw [get_hostname_eq]; exact fun h => nomatch h
+
+/-- **`is_facebook_url` never raises** -/
+theorem is_facebook_url_total (url : Str) (e : Err) : is_facebook_url url ≠ .error e := by
+  rw [is_facebook_url_eq]; exact fun h => nomatch h
+
+/-- **`is_facebook_post_url` never raises** -/
+theorem is_facebook_post_url_total (url : Str) (e : Err) : is_facebook_post_url url ≠ .error e := by
+  unfold is_facebook_post_url
+  rw [is_facebook_url_eq]; exact fun h => nomatch h
+
+/-- **`is_facebook_link` never raises** -/
+theorem is_facebook_link_total (url : Str) (e : Err) : is_facebook_link url ≠ .error e := by
+  unfold is_facebook_link
+  rw [catchValueError_safeUrlsplit]; exact fun h => nomatch h
+
+/-- **`parse_facebook_url` never raises**: for every string and both values of
+`allow_relative_urls` the result is `None` or a record — every `parts[i]`, `query[k]`,
+`query[k][0]` and `split(…)[1]` of the code is dominated by a guard, and both `ValueError`s of
+`urlsplit` (through `urljoin`, through `safe_urlsplit`) are caught. -/
+theorem parse_facebook_url_total (url : Str) (rel : Bool) (e : Err) :
+    parse_facebook_url url rel ≠ .error e := by
+  unfold parse_facebook_url
+  obtain ⟨r, hr⟩ := resolveUrl_total url rel
+  rw [hr]
+  cases r with
+  | none => exact fun h => nomatch h
+  | some u =>
+    simp only
+    rw [catchValueError_safeUrlsplit]
+    cases safe_urlsplit u with
+    | none => exact fun h => nomatch h
+    | some sp =>
+      obtain ⟨x, hx⟩ := parseSplit_total sp
+      simp only [hx]
+      exact fun h => nomatch h
+
+/-- **`has_facebook_comments` never raises** -/
+theorem has_facebook_comments_total (url : Str) (rel : Bool) (e : Err) :
+    has_facebook_comments url rel ≠ .error e := by
+  unfold has_facebook_comments
+  rw [is_facebook_url_eq]
+  cases isFacebookUrlB url with
+  | false => exact fun h => nomatch h
+  | true =>
+    simp only
+    cases h : parse_facebook_url url rel with
+    | error e' => exact absurd h (parse_facebook_url_total url rel e')
+    | ok r => exact fun h => nomatch h
+
+/-- **`convert_facebook_url_to_mobile` raises only its documented error**, and exactly on the
+urls it documents as foreign: those `urlsplit` refuses and those whose netloc does not contain
+`facebook`. (`result.split("://", 1)[-1]` cannot fail: `split` returns at least one piece.) -/
+theorem convert_only_documented_error (url : Str) :
+    (∀ e, convert_facebook_url_to_mobile url = .error e → e = .typeError) ∧
+    ((∃ e, convert_facebook_url_to_mobile url = .error e) ↔
+      (match urlsplit (ensure_protocol url (lit "http")) with
+       | none => True
+       | some sp => contains sp.netloc (lit "facebook") = false)) := by
+  unfold convert_facebook_url_to_mobile
+  simp only
+  cases hs : urlsplit (ensure_protocol url (lit "http")) with
+  | none =>
+    refine ⟨?_, ?_, ?_⟩
+    · intro e h; cases h; rfl
+    · intro _; trivial
+    · intro _; exact ⟨_, rfl⟩
+  | some sp =>
+    simp only
+    by_cases hc : contains sp.netloc (lit "facebook") = true
+    · simp only [hc, Bool.not_true, Bool.false_eq_true, if_false]
+      have hne : ∀ s : Str, splitStr1 s (lit "://") ≠ [] := by
+        intro s; unfold splitStr1; cases find s (lit "://") <;> simp
+      split
+      · rw [getLastIdx_of_ne_nil _ (hne _)]
+        refine ⟨?_, ?_, ?_⟩
+        · intro e h; cases h
+        · rintro ⟨e, h⟩; cases h
+        · intro h; cases h
+      · refine ⟨?_, ?_, ?_⟩
+        · intro e h; cases h
+        · rintro ⟨e, h⟩; cases h
+        · intro h; cases h
+    · have hc' : contains sp.netloc (lit "facebook") = false := by simpa using hc
+      simp only [hc', Bool.not_false, if_true]
+      refine ⟨?_, ?_, ?_⟩
+      · intro e h; cases h; rfl
+      · intro _; trivial
+      · intro _; exact ⟨_, rfl⟩
 
 end Ural.Props.C19.Facebook
